@@ -232,3 +232,44 @@ PROPS['C12'].update(level='other', explanation="Deductive (counted as proved) - 
 TEXT['C12'].update(level_text='Mixed: the library\'s own decision logic around pandas is proved for all inputs with the pandas operations uninterpreted; the behaviour of those operations - which is most of the property - is bounded only, hence "other".', level_note='Trusted: the VC generator, the th_pandas model (pandas / numpy operations are uninterpreted functions of receiver and arguments, no aliasing through item / attribute stores, comprehension identity by text), callee contracts by name, as_list / zipper / reduce axioms. What the pandas operations compute is checked by the bounded stand-in only.', technique='contract-based deductive verification (AST-generated VCs over uninterpreted pandas operations, loop invariants, z3/cvc5) + bounded run-time contract check')
 PROPS['C17'].update(level='other', explanation='Deductive (counted as proved) - Wrapper logic proved, pandas behaviour bounded: _nth stays in bounds for non-empty groups; the as-of filter is <= asof and precedes the stable stamp sort and the per-date selection; _drop_repeats compares each row with its immediate predecessor and only then keeps the last per stamp; bi_merge returns early only for 0 / 1 versions and merges all versions per date through _drop_repeats (52 obligations). Bounded (not proved): the property itself on enumerated pandas inputs against plain-Python oracles.')
 TEXT['C17'].update(level_text='Mixed: the library\'s own decision logic around pandas is proved for all inputs with the pandas operations uninterpreted; the behaviour of those operations - which is most of the property - is bounded only, hence "other".', level_note='Trusted: the VC generator, the th_pandas model (pandas / numpy operations are uninterpreted functions of receiver and arguments, no aliasing through item / attribute stores, comprehension identity by text), callee contracts by name, as_list / zipper / reduce axioms. What the pandas operations compute is checked by the bounded stand-in only.', technique='contract-based deductive verification (AST-generated VCs over uninterpreted pandas operations, loop invariants, z3/cvc5) + bounded run-time contract check')
+
+# ---- after the table-operations contracts (mask / constructor / slices / projections / concat / update; pivot; perdictable.join key sets)
+PROPS['C01'].update(explanation='Deductive (counted as proved): __setitem__, __len__, get, d[i]; __iter__ (one Dict per row, in order); __getitem__ for boolean masks '
+    '(exactly the rows whose entry is true, in order, all columns - count_true with induction lemmas), slices, column names, tuples and lists of names; the constructor from '
+    'a dict of columns / keyword columns / ([], columns) / a list of records / nothing with _data_columns_as_dict inlined; dict_concat (all four branches); column deletion; '
+    'd1 + d2; update. Bounded only: integer-list selection (rows + headers constructor), broadcast on construction, concat of more than two tables, relabel / do / derived '
+    'columns, whole operation histories (the induction over the proved operations is an argument, not a solver step).')
+TEXT['C01'].update(
+    level_text='Mixed: the representation invariant and the row content are proved for the operations listed in the explanation for all tables and values; "any operation '
+               'history" is an induction over operations of which those are proved - the remaining operations and the model equality of whole histories are bounded, '
+               'so the claim is "other".',
+    level_note='Callee contracts: lens and zipper (C19), dict-level __setitem__/__getitem__ axioms, list repeat axiom for lengths 0/1. Obligations of the table sections are '
+               'discharged on a quantifier-free grounding (pyvc/ground.py); trusted: induction schema for count_true, axioms for sorted / set / zip / map / dict / reduce on key '
+               'sets and for slice objects, VC generator, z3/cvc5.')
+PROPS['C06'].update(explanation=PROPS['C06']['explanation'].replace(
+    'Assumed: row selection by a boolean mask (C01, bounded-checked). The induction over filters (rows kept = conjunction, partition, idempotence) is an argument in contracts/C06.py, not a solver step.',
+    'Row selection by a boolean mask is the proved contract of dictable.__getitem__ (obligations regenerated in this property); each inc step is composed with it by the solver '
+    '(columns kept, one row per passing cell, passing rows at their rank). The induction over several filters is an argument in contracts/C06.py, not a solver step; the exc mask '
+    'expression is checked on the AST.'))
+TEXT['C06'].update(
+    level_text='Mixed: the per-cell condition logic (where inc and exc must agree) is proved over uninterpreted cell predicates for all cells and conditions and composed with the '
+               'proved mask-selection contract; the composition over several filters is a written induction, and the rest is bounded - hence "other".',
+    level_note='Uninterpreted: is_nan, is_str, isinstance(_, Pattern), Pattern.search, membership in as_list(value). Two obligations are syntactic checks of the real AST text '
+               '(exc mask expression, inc empty-result tail).')
+PROPS['C11'].update(explanation=PROPS['C11']['explanation'].replace('Bounded only: constructors, update, concat in unlist/ungroup, pivot (xyz) and unpivot.',
+    'pivot (xyz): for every (x, y) group its z values (aggregated when agg is given) sit in row = x group, column = y group, other cells None, nothing raises - three _listby calls '
+    'by contract, interface lemmas, double loop with invariants and a ghost writer matrix. Assumed: type(self)(xys, x+(y_,)) is the table of group keys and '
+    'len(rs[[y_]].listby(y_)) the number of y groups. Bounded only: column labels / final assembly of the pivot, unpivot, ungroup / unlist assembly.'))
+TEXT['C11'].update(
+    level_text='Mixed: the grouping algorithm, the per-cell expressions and the pivot placement are proved for all tables; the assembling constructor calls, ungroup and unpivot '
+               'are covered by the bounded stand-in only, so the claim is "other".')
+PROPS['C20'].update(explanation=PROPS['C20']['explanation'].replace(
+    'Bounded only: join(inputs, on, defaults) (a composition of dictable.join / xor / sort), scalar-only calls, run_if_none, _dict_output, output assembly.',
+    'join(inputs, on, defaults) with _join_dictable_with_defaults and reducer inlined is proved at the level of uninterpreted key sets for 0..2 plain and 0..2 defaulted table '
+    'inputs (+ a scalar): result keys (intersection over inputs without defaults, union of the defaulted inputs\' keys when there are none), every input\'s column, own value vs '
+    'default per key, sorted by on; _value_output registers expiry and the previous value as outer-joined. Assumed: _item keeps the rows of an input. Bounded: row-level values, '
+    '_item, scalar-only calls, run_if_none, _dict_output.'))
+TEXT['C20'].update(
+    level_text='Mixed: the gating that decides which rows are (re)computed and the key-set algebra of the keyed join are proved; row-level values of the join and the output '
+               'assembly are bounded, so the claim is "other".',
+    level_note=TEXT['C20']['level_note'] + ' Callee contracts used as facts in join: d1*d2 and d1/d2 (C02), d1+d2 (C01), sort (C07).')
